@@ -46,21 +46,24 @@ pub struct Verdict {
     pub nontrivial: bool,
     /// The run could not be judged (harness problem): exit 2, never a violation.
     pub harness_error: Option<String>,
+    /// cut off by the step cap: neither held nor violated
+    pub inconclusive: bool,
 }
 
 impl Verdict {
     pub fn ok(nontrivial: bool) -> Verdict {
-        Verdict { violation: None, nontrivial, harness_error: None }
+        Verdict { violation: None, nontrivial, harness_error: None, inconclusive: false }
     }
     pub fn fail(rule: &str, disc: impl Into<String>, detail: impl Into<String>) -> Verdict {
         Verdict {
             violation: Some(Violation { rule: rule.into(), disc: disc.into(), detail: detail.into() }),
             nontrivial: true,
             harness_error: None,
+            inconclusive: false,
         }
     }
     pub fn harness(msg: impl Into<String>) -> Verdict {
-        Verdict { violation: None, nontrivial: false, harness_error: Some(msg.into()) }
+        Verdict { violation: None, nontrivial: false, harness_error: Some(msg.into()), inconclusive: false }
     }
 }
 
@@ -136,8 +139,12 @@ pub fn exec(scn: &'static dyn Scenario, plan: &Plan, record: bool) -> Outcome {
             if let Some(p) = rec.panics.first() {
                 verdict = Verdict::fail("panic", panic_disc(p), p.clone());
             }
-            if stop == Stop::StepCap && verdict.violation.is_none() {
-                verdict.harness_error = Some(format!("step cap {} hit", plan.sched.step_cap));
+            // A run cut off by the step cap was not judged at quiescence: whatever the scenario concluded from the
+            // state it found (a missing reply, an incomplete frame) is not a verdict.  Such runs are counted as
+            // inconclusive; a panic stands.
+            if stop == Stop::StepCap && rec.panics.is_empty() {
+                verdict = Verdict::ok(false);
+                verdict.inconclusive = true;
             }
             Outcome { verdict, record: rec, stop }
         })
@@ -339,6 +346,8 @@ pub struct WorkerSummary {
     pub violation: Option<(String, String, String)>,
     pub known_hits: BTreeMap<String, u64>,
     pub harness_errors: Vec<String>,
+    #[serde(default)]
+    pub inconclusive: u64,
     pub hashes_file: Option<String>,
     pub trace_hashes: u64,
 }
@@ -401,6 +410,10 @@ pub fn worker(
             *sum.strategies.entry("with_stall_window".to_string()).or_insert(0) += 1;
         }
         traces.insert(o.record.log_hash);
+        if o.verdict.inconclusive {
+            sum.inconclusive += 1;
+            continue;
+        }
         if let Some(e) = &o.verdict.harness_error {
             if sum.harness_errors.len() < 5 {
                 sum.harness_errors.push(format!("idx {idx}: {e}"));
@@ -557,6 +570,7 @@ pub fn run_batch(scn: &'static dyn Scenario, verif: &Path, tier: Tier, seed: u64
             agg.samples.extend(s.samples.into_iter().take(3 - agg.samples.len()));
         }
         agg.harness_errors.extend(s.harness_errors);
+        agg.inconclusive += s.inconclusive;
         if let Some((fp, path, detail)) = s.violation {
             violations += 1;
             if seen_fps.insert(fp.clone()) {
@@ -567,6 +581,10 @@ pub fn run_batch(scn: &'static dyn Scenario, verif: &Path, tier: Tier, seed: u64
                 exit = 1;
             }
         }
+    }
+    // a handful of runs out of a million exhausting the step budget is the budget's business; many is the harness's
+    if agg.inconclusive * 500 > agg.evaluations.max(1) {
+        agg.harness_errors.push(format!("{} of {} runs hit the step cap (inconclusive)", agg.inconclusive, agg.evaluations));
     }
     if !agg.harness_errors.is_empty() {
         for e in agg.harness_errors.iter().take(5) {
@@ -590,6 +608,7 @@ pub fn run_batch(scn: &'static dyn Scenario, verif: &Path, tier: Tier, seed: u64
             "evaluations": agg.evaluations,
             "distinct_nontrivial": all_hashes.len(),
             "nontrivial_runs": agg.nontrivial,
+            "inconclusive_runs_step_cap": agg.inconclusive,
             "rule": scn.rule(),
             "distinct_measure": "distinct (plan hash, event-log hash) pairs among runs satisfying the non-trivial rule; the event-log hash covers every scheduling decision, transport event and oracle event of the run",
             "samples": agg.samples,
@@ -666,6 +685,9 @@ pub fn replay(scn: &'static dyn Scenario, path: &Path, quiet: bool) -> i32 {
             println!("replay did not reproduce (recorded {})", rf.fingerprint);
             if let Some(e) = &o.verdict.harness_error {
                 println!("harness error: {e}");
+            }
+            if o.verdict.inconclusive {
+                println!("inconclusive: the run hit the step cap before quiescence");
             }
             2
         }
